@@ -17,12 +17,14 @@
      "close"      as coded at the pinned commit: close(events) on exit
      "noclose"    naive repair: never close, delivery is a bare send          (leaks a blocked goroutine)
      "done"       repair: per-client done channel closed on exit; delivery = select {events<-e | <-done}
-     "lockedsend" plausible mutant: Send delivers inline while holding m      (broadcaster blocks)          *)
+     "lockedsend" plausible mutant: Send delivers inline while holding m      (broadcaster blocks)
+     "timeoutdrop" plausible mutant of "done": a delivery gives up after a while although its client is
+                  still registered and connected (a slow reader misses the reload for good)              *)
 EXTENDS Integers, FiniteSets, Sequences, TLC, Json
 
 CONSTANTS Clients,     \* set of strings, e.g. {"c1","c2"}
           NB,          \* number of broadcasts (issued back to back by one broadcaster)
-          Design,      \* "close" | "noclose" | "done" | "lockedsend"
+          Design,      \* "close" | "noclose" | "done" | "lockedsend" | "timeoutdrop"
           MaxPings,    \* timer ticks per handler explored by MC (the first tick is at time 0)
           PingFirst,   \* TRUE (replay models): the time-0 ping is folded into Register, no later ticks
           NoRaces,     \* TRUE (replay models): do not enter states in which a select has two ready cases
@@ -57,7 +59,7 @@ Init == /\ pc = [c \in Clients |-> "new"]
 
 Connected(c) == pc[c] \in {"loop", "writing"}
 Closes == Design = "close"
-HasDone == Design \in {"done", "lockedsend"}
+HasDone == Design \in {"done", "lockedsend", "timeoutdrop"}
 
 -----------------------------------------------------------------------------
 (* handler of client c *)
@@ -186,9 +188,17 @@ Run(c, b) ==
 
 \* "done" design: case <-done
 Abandon(c, b) ==
-    /\ Design = "done" /\ dl[c][b] = "sending" /\ done[c]
+    /\ Design \in {"done", "timeoutdrop"} /\ dl[c][b] = "sending" /\ done[c]
     /\ dl' = [dl EXCEPT ![c][b] = "abandoned"]
     /\ lbl' = [a |-> "abandon", c |-> c, b |-> b]
+    /\ UNCHANGED <<pc, cancelled, wr, pings, requests, ch, done, got, targets, m, bpc, sent, bcur, panicked>>
+
+\* "timeoutdrop" design: case <-time.After(d): the goroutine stops waiting for a handler that is busy
+\* (stalled in a write for longer than d) and the event is lost although the client is still there
+TimeoutDrop(c, b) ==
+    /\ Design = "timeoutdrop" /\ dl[c][b] = "sending" /\ pc[c] = "writing"
+    /\ dl' = [dl EXCEPT ![c][b] = "dropped"]
+    /\ lbl' = [a |-> "timeoutdrop", c |-> c, b |-> b]
     /\ UNCHANGED <<pc, cancelled, wr, pings, requests, ch, done, got, targets, m, bpc, sent, bcur, panicked>>
 
 -----------------------------------------------------------------------------
@@ -200,7 +210,7 @@ Racy == \E c \in Clients : pc[c] = "loop" /\ Ready(c) >= 2
 
 Step == \/ \E c \in Clients : \/ Register(c) \/ Ping(c) \/ WriteDone(c) \/ WriteFail(c)
                               \/ Cancel(c) \/ ExitCtx(c) \/ Unregister(c) \/ BPick(c)
-        \/ \E c \in Clients, b \in B : Deliver(c, b) \/ Run(c, b) \/ Abandon(c, b)
+        \/ \E c \in Clients, b \in B : Deliver(c, b) \/ Run(c, b) \/ Abandon(c, b) \/ TimeoutDrop(c, b)
         \/ BLock \/ BSpawn \/ BInline \/ BUnlock
 
 \* a panic kills the process: nothing happens afterwards
@@ -221,7 +231,7 @@ TypeOK ==
     /\ pc \in [Clients -> {"new", "loop", "writing", "exiting", "gone"}]
     /\ requests \subseteq Clients
     /\ m \in {"free", "b"} /\ sent \in 0..NB
-    /\ \A c \in Clients, b \in B : dl[c][b] \in {None, "spawned", "queued", "sending", "delivered", "abandoned"}
+    /\ \A c \in Clients, b \in B : dl[c][b] \in {None, "spawned", "queued", "sending", "delivered", "abandoned", "dropped"}
 
 \* the registry is exactly the set of handlers between Register and Unregister
 RegistryExact == requests = {c \in Clients : pc[c] \in {"loop", "writing", "exiting"}}
@@ -244,6 +254,15 @@ NoLeak == \A c \in Clients, b \in B :
 
 \* every client registered when the broadcast took m gets a delivery goroutine, nobody else does
 SpawnedAreTargets == \A c \in Clients, b \in B : (b <= sent) => ((dl[c][b] # None) <=> (c \in targets[b]))
+
+\* C19, safety form of Delivered that a replay can observe: once nothing is in flight any more (no pending
+\* delivery, no handler in a write or on its way out, broadcaster idle), every client that was registered
+\* when a broadcast took m and whose browser never went away has that broadcast
+Quiescent == /\ ~panicked /\ bpc = "idle"
+             /\ \A c \in Clients : pc[c] \in {"new", "loop", "gone"}
+             /\ \A c \in Clients, b \in B : dl[c][b] \notin {"spawned", "queued", "sending"}
+DeliveredAtQuiescence ==
+    Quiescent => \A c \in Clients, b \in B : (c \in targets[b] /\ ~cancelled[c]) => b \in got[c]
 
 \* liveness (under Fairness): a client registered at the broadcast and still connected receives it
 Delivered == \A c \in Clients \ Slow, b \in B :
